@@ -278,6 +278,9 @@ func runC05(c *Ctx) {
 		}
 	}
 
+	c.Rule("C05-D7", "namespace prefix in the packet header (shared with C09-D2): the writer emits <nsp>, for every packet type whenever the namespace is neither empty nor \"/\", independent of the attachment and id fields, and the reader parses it for every type in the same position", 30)
+	headerLayout(c, "C05-D7")
+
 	c.Rule("C05-D6", "a namespace disconnect touches only its own socket: onDisconnect / Disconnect(false) reach the socket's onClose and never conn.close/disconnectAll; the socket removes only itself from the connection", 4)
 	{
 		fn := p.Fn("sio", "serverSocket.onDisconnect")
